@@ -1495,6 +1495,9 @@ class Engine:
             env2['old'] = Namespace({pn: v0})
             self.assumptions_used.add('instance of the proved clause %s of %s' % (cl, cands[0].split(':')[1]))
             return S.vbool(self.spec_formula(ast.parse(c2.ensures[cl], mode='eval').body, env2, path, cands[0].split(':')[0]))
+        if name == 'region_names':
+            # the names of the region blocks in the hierarchy of a sub-graph (what iter_subregions yields on it)
+            return V(('set', T_NAME), ufun('region_names', z3.IntSort(), S.sort_of(('set', T_NAME)))(E(0).t))
         if name == 'hier_names':
             # the names a nested iteration of the sub-graph yields (all blocks and regions inside it, at every depth)
             return V(('set', T_NAME), ufun('hier_names', z3.IntSort(), S.sort_of(('set', T_NAME)))(E(0).t))
@@ -2553,7 +2556,9 @@ class Engine:
             if self.c.yield_check:
                 self.add_obligation(path, 'yield-item', ast.unparse(st.value),
                                     self.spec_formula(ast.parse(self.c.yield_check, mode='eval').body, dict(path.env, it=v), path))
-            if self.c.yield_key is not None:
+            if isinstance(self.c.yield_key, str):
+                v = S.block_field(v, self.c.yield_key)          # the ghost set holds a field of the yielded block
+            elif self.c.yield_key is not None:
                 v = S.seq_get(v, IntVal(self.c.yield_key)) if v.ty[0] == 'seq' else S.pair_get(v, self.c.yield_key)
             self.add_obligation(path, 'yield-once', ast.unparse(st.value), Not(Select(cur.t, v.t)))
             path.env['_yielded'] = V(cur.ty, Store(cur.t, v.t, True))
@@ -2561,11 +2566,18 @@ class Engine:
         if isinstance(st.value, ast.YieldFrom):
             # `yield from <sub-graph>`: the items of the nested iteration (this same generator on the sub-graph, used through
             # its contract): the ghost set grows by hier_names(sub), none of which may have been yielded before
-            sub = self.evaluator().ev(st.value.value, path, False)
+            yv = st.value.value
+            ghost = 'hier_names'
+            if isinstance(yv, ast.Call) and isinstance(yv.func, ast.Attribute) and yv.func.attr == self.fn.name and not yv.args:
+                # `yield from <sub-graph>.<this generator>()`: the recursive call, used through this contract: it yields the
+                # ghost set of the sub-graph (the contract's `yield_ghost` function)
+                yv = yv.func.value
+                ghost = self.c.yield_ghost or ghost
+            sub = self.evaluator().ev(yv, path, False)
             if not (isinstance(sub, V) and sub.ty == S.T_SUB and self.c.yield_key is not None):
                 raise Unsupported('yield from')
             cur = path.env['_yielded']
-            hn = ufun('hier_names', z3.IntSort(), S.sort_of(cur.ty))(sub.t)
+            hn = ufun(ghost, z3.IntSort(), S.sort_of(cur.ty))(sub.t)
             x = z3.FreshConst(S.sort_of(cur.ty[1]), 'yx')
             self.add_obligation(path, 'yield-once', ast.unparse(st.value), ForAll([x], Implies(Select(hn, x), Not(Select(cur.t, x)))))
             r = S.fresh(cur.ty, 'yielded')
